@@ -467,7 +467,15 @@ impl<'a> Generator<'a> {
         if self.rng.chance(1, 3) {
             g.labels.insert("mode".into(), self.rng.pick(&["solo", "duo", "squad"]).to_string());
         }
+        // metadata keys that collide with the reserved `state` key (and with each other): a label or
+        // annotation called "state" must not decide whether the server is offered
+        if self.rng.chance(1, 6) {
+            g.labels.insert("state".into(), self.rng.pick(&["Ready", "Allocated", "Shutdown", "retired", "blue"]).to_string());
+        }
         g.annotations.clear();
+        if self.rng.chance(1, 10) {
+            g.annotations.insert("state".into(), self.rng.pick(&["Ready", "Shutdown", "draining"]).to_string());
+        }
         if self.rng.chance(1, 2) {
             g.annotations.insert("agones.dev/sdk-version".into(), format!("1.{}.0", self.rng.range(40, 52)));
         }
